@@ -29,6 +29,76 @@ def unit_evolvent(N, m, rebound=None):
     return ev
 
 
+_KEEP = []          # solvers built by solver_evolvent stay alive for the rest of the worker process (as they would in a user's program)
+
+
+def solver_evolvent(lower, upper, N, m, rng, obs, iterate=True, reassign=False):
+    """The Evolvent that a Solver builds for a problem with this box and SolverParameters(evolventDensity=m) with eps, r,
+    itersLimit and refineSolution drawn at random: users of the optimiser reach the curve through the public Solver.evolvent,
+    and every evolvent property is stated for the configured (N, m, box).  A second Solver with the same N and m over ANOTHER
+    box is built (and stepped) afterwards and both stay alive; the first Solver is stepped a little as well when iterate."""
+    import contextlib
+    import io
+    from iOpt.problem import Problem
+    from iOpt.solver import Solver
+    from iOpt.solver_parametrs import SolverParameters
+
+    class _P(Problem):
+        def __init__(self, lo, hi, as_list):
+            super().__init__()
+            self.numberOfFloatVariables = N
+            self.dimension = N
+            self.numberOfObjectives = 1
+            self.numberOfConstraints = 0
+            self.floatVariableNames = np.array(["x%d" % i for i in range(N)], dtype=str)
+            self.lowerBoundOfFloatVariables = list(lo) if as_list else np.array(lo, dtype=np.double)
+            self.upperBoundOfFloatVariables = list(hi) if as_list else np.array(hi, dtype=np.double)
+            self._lo = np.array(lo, dtype=float)
+            self._side = np.array(hi, dtype=float) - self._lo
+
+        def Calculate(self, point, functionValue):
+            u = (np.asarray(point.floatVariables, dtype=float) - self._lo) / self._side
+            functionValue.value = float(np.sum((u - 0.3) ** 2))
+            return functionValue
+
+    def params():
+        return SolverParameters(eps=float(10 ** rng.uniform(-7, -0.5)), r=float(rng.uniform(1.1, 5.0)),
+                                itersLimit=int(rng.integers(1, 500)), evolventDensity=m, refineSolution=bool(rng.random() < 0.3))
+
+    lo = np.array(lower, dtype=float)
+    hi = np.array(upper, dtype=float)
+    a = Solver(_P(lo, hi, bool(rng.random() < 0.4)), parameters=params())
+    if reassign:
+        # the user gives the problem object other bound arrays after the Solver was built and then lets the Solver work: whichever
+        # box the Solver's evolvent is on afterwards, it must be ONE box for both directions of the map
+        nlo = lo + (hi - lo) * rng.uniform(0.05, 0.4, N)
+        nhi = hi - (hi - lo) * rng.uniform(0.05, 0.4, N)
+        a.problem.lowerBoundOfFloatVariables = np.array(nlo, dtype=np.double)
+        a.problem.upperBoundOfFloatVariables = np.array(nhi, dtype=np.double)
+        with contextlib.redirect_stdout(io.StringIO()):
+            try:
+                a.DoGlobalIteration(int(rng.integers(1, 5)))
+            except Exception:
+                obs["solver_evolvent_iteration_raised"] = obs.get("solver_evolvent_iteration_raised", 0) + 1
+        obs["solver_evolvents_after_the_problem_got_other_bounds"] = obs.get("solver_evolvents_after_the_problem_got_other_bounds", 0) + 1
+    olo = lo + (hi - lo) * rng.uniform(-3, 3, N) + rng.uniform(-5, 5, N)
+    ohi = olo + (hi - lo) * 10 ** rng.uniform(-1, 1, N) + 10 ** rng.uniform(-3, 1, N)
+    b = Solver(_P(olo, ohi, bool(rng.random() < 0.4)), parameters=params())
+    with contextlib.redirect_stdout(io.StringIO()):
+        try:
+            b.DoGlobalIteration(int(rng.integers(1, 6)))
+            if iterate and rng.random() < 0.5:
+                a.DoGlobalIteration(int(rng.integers(1, 4)))
+                obs["solver_evolvents_used_by_their_solver_first"] = obs.get("solver_evolvents_used_by_their_solver_first", 0) + 1
+        except Exception as e:      # the method's floating-point guard on extreme boxes is not this monitor's business
+            obs["solver_evolvent_iteration_raised"] = obs.get("solver_evolvent_iteration_raised", 0) + 1
+    _KEEP.append((a, b))
+    if len(_KEEP) > 64:
+        del _KEEP[0]
+    obs["evolvents_built_by_a_solver"] = obs.get("evolvents_built_by_a_solver", 0) + 1
+    return a.evolvent
+
+
 def cell_of_unit_image(y, m):
     """y: image on the unit box.  Returns (integer cell vector, exact?) where exact means y is
     exactly the centre (j+1/2)/2^m of cell j."""
